@@ -557,6 +557,10 @@ fn collect_runtime_types(
                         self.collect_type(elem);
                     }
                 }
+                tast::Ty::TVec { elem } => {
+                    // The slice itself needs no definition, but its element type may.
+                    self.collect_type(elem);
+                }
                 tast::Ty::TStruct { name: _ } => {
                     // Vec types are handled as slices, no special collection needed
                 }
